@@ -70,7 +70,7 @@ type KMCase struct {
 
 var instants = map[string]time.Time{
 	"i1": time.Date(2021, 3, 1, 12, 0, 0, 0, time.UTC),
-	"i2": time.Date(2021, 3, 7, 9, 30, 15, 0, time.UTC),
+	"i2": time.Date(2021, 3, 7, 9, 30, 15, 999000000, time.UTC), // "to the second": the fraction is cut, not rounded
 }
 var calLoc = time.UTC
 
@@ -78,7 +78,7 @@ const utcLayout = "20060102T150405Z"
 
 func instTok(t time.Time) string {
 	for k, v := range instants {
-		if v.Equal(t) {
+		if v.Unix() == t.Unix() { // equal to the second
 			return k
 		}
 	}
